@@ -16,16 +16,16 @@ LEVEL_TEXT = ('Lean 4 theorems, for all shapes, masks, amplitudes and OPDs: a su
               'add up to the phasor of the global mask, also with overlapping bounding boxes; a plane multiplies the summed embedding by its '
               'transmission, so chains of planes give the same total field for both descriptions; propagate_dft is additive in the embedded '
               'field; intensity is the squared modulus of the coherent sum; composed end to end (segmented_eq_monolithic_end_to_end): fresh wavefront, '
-              'a fresh wavefront through any non-empty chain of array-masked partitioned planes, then propagate_dft as the driver models it (generated window block and shapes, a tilt shift common to all fields, optional output mask: segmented_eq_monolithic_propagateDft) -> equal Wavefront.field and intensity at every sample; well-formedness follows from the masks alone for constructed planes (splitPlane_wf_of_masks). The NumPy plumbing is a hand model checked against the '
+              'a fresh wavefront through any non-empty chain of array-masked partitioned planes, then propagate_dft as the driver models it (generated window block and shapes, a tilt shift common to all fields, optional output mask: segmented_eq_monolithic_propagateDft) -> equal Wavefront.field and intensity at every sample; well-formedness follows from the masks alone for constructed planes (splitPlane_wf_of_masks); Tilt planes anywhere in the chain and Wavefront(tilt=) as ONE theorem (segmented_eq_monolithic_interleaved: every field carries each Tilt once, data unchanged); through propagate_fft by composition with C09 (segmented_eq_monolithic_propagate_fft); chain_exp: the explicit product of amplitude*exp(2 pi i opd/lambda) over the planes. The NumPy plumbing is a hand model checked against the '
               'implementation, with both descriptions run on the real code.')
 LEVEL_NOTE = ('Partial: segments / intermediate fields with exactly one element are excluded by hypothesis (open known finding '
               'KF-C03-one-pixel-segment); propagation is modelled for tilt-free fields without output mask (tilt and masks: C04, C02). '
               'Trusted: Lean kernel, py2lean subset semantics, NumPy semantics as modelled, np.dot sums, generator coverage.')
 TECHNIQUE = 'Lean 4 proof (omega/induction/Finset sums) over translator-regenerated kernels + hand model with differential correspondence'
-GEN = ['Extent', 'FieldIdx', 'Helper', 'Window']
+GEN = ['Extent', 'FieldIdx', 'Helper', 'Window', 'PlanePhase', 'PropagateMeta']
 OPS = ['C07', 'C03']
-RULE = ('cases: random supports on shapes 2..7, partitions into 1..5 segments (random labels = overlapping bounding boxes in half the cases, '
-        'bands otherwise), chains of 1..3 masked Pupil planes with scalar/array amplitude and OPD, each plane described segmented or '
+RULE = ('cases: random supports on shapes 2..10, partitions into 1..9 segments (random labels = overlapping bounding boxes in half the cases, '
+        'bands otherwise), chains of 1..3 masked planes (Pupil; also Image or plain Plane chains) with scalar/array amplitude and OPD, each plane described segmented or '
         'monolithic, then propagate_dft with random per-axis sampling (mixed Tilt/segmented chains also with an output mask); plus 3..5 tilted segments (OPD ramps fitted by fit_tilt) propagated with prop_shape < shape so that the per-segment output fields overlap as chains, oversampling 1..3, output shape and prop_shape; exact stream '
         '(no propagation, Gaussian-integer data) and float stream. distinct = canonical (shapes, partition, attribute kinds, propagation '
         'setting) signature; non-trivial = some plane has at least two segments')
@@ -33,8 +33,9 @@ TRUSTED = ['NumPy slicing/broadcasting in Plane.multiply and util.boundary (mode
            'np.dot / einsum in fourier.dft2 compute the sums of products (Model/Fourier.lean; C01 checks dft2 itself)',
            'np.exp(1j*t) = cos t + i sin t']
 UNPROVEN = [
-            'the end-to-end theorems take a fresh wavefront and planes with array masks, and a shift common to all fields (shared Tilt planes, Wavefront(tilt=): common_tilts_plane/common_tilts_tilt); '
-            'per-segment fitted tilts (different shifts per field: the chain-overlap class), interleaving of Tilt planes inside the SplitPlane chain, and propagate_fft are covered by correspondence (c03.chain over builderB Model/Propagate.lean, Model/Tilt.lean) and oracle only',
+            'per-segment FITTED tilts (fit_tilt: a different shift per field, windows that crop each segment differently) have no segmented = monolithic theorem — with prop_shape < shape the two descriptions are genuinely different computations; that class is covered by correspondence (c03.chain over builderB Model/Propagate.lean, Model/Tilt.lean) and by the oracle (coherent sum; windowed chip = window of the full propagation), tilt-as-metadata = tilt-in-OPD is C04',
+            'the end-to-end theorems start from a fresh wavefront and use planes with array masks (scalar-mask planes inside the chain: plane_multiply_total only)',
+            'planes re-used after the amplitude/OPD setters and copy(): oracle only; rescale/resample of a plane is C17',
             'partitions containing a segment (or producing an intermediate field) with exactly one element (known finding KF-C03-one-pixel-segment)']
 ASSUMPTIONS = ['every segment bounding box and every intersection of boxes along the chain has more than one element (ExtOK: a condition on the bounding slices and shapes of the input, used by segmented_eq_monolithic_end_to_end)',
                'segment masks of one plane have pairwise disjoint supports']
@@ -44,7 +45,7 @@ def _split_plane(rng, mode, shape):
     for _ in range(100):
         M = H7._support(rng, shape, float(rng.uniform(0.5, 0.95)))
         if not H7._ok_layer(M): continue
-        k = int(rng.integers(1, 6))
+        k = int(rng.integers(1, 6)) if (shape[0] * shape[1] < 30 or rng.integers(0, 2)) else int(rng.integers(6, 10))
         layers = [M] if k == 1 else H7.partition(rng, M, k, interleave=bool(rng.integers(0, 2)))
         if layers is None: continue
         amp = H7._attr(rng, mode, 'amp', shape, bool(rng.integers(0, 4) == 0))
@@ -59,7 +60,7 @@ def _split_plane(rng, mode, shape):
 
 def gen_case(rng, mode, prop):
     for _ in range(200):
-        shape = (int(rng.integers(2, 8)), int(rng.integers(2, 8)))
+        shape = (int(rng.integers(2, 8)), int(rng.integers(2, 8))) if rng.integers(0, 5) else (int(rng.integers(6, 11)), int(rng.integers(6, 11)))
         n = int(rng.integers(1, 4))
         seg, mono = [], []
         for i in range(n):
@@ -72,6 +73,8 @@ def gen_case(rng, mode, prop):
         fl = float(rng.integers(2, 9))
         for p in seg + mono: p['px'] = dx; p['fl'] = fl
         c = {'kind': 'seg', 'mode': mode, 'seg': seg, 'mono': mono, 'wavelength': H7.WL_GI}
+        kind = 'pupil' if rng.integers(0, 3) else ('image' if rng.integers(0, 2) else ('pupil' if prop else 'plane'))
+        for p in seg + mono: p['kind'] = kind
         if prop:
             os_ = int(rng.integers(1, 4))
             du = [float(rng.integers(1, 4)), float(rng.integers(1, 4))] if rng.integers(0, 2) else [2.0, 2.0]
@@ -208,6 +211,19 @@ def gen_big(rng):
     return {'kind': 'seg', 'mode': 'cf', 'seg': seg, 'mono': mono, 'wavelength': wl, 'extreme': 'big',
             'prop': {'du': du, 'os': os_, 'shape': oshape, 'prop_shape': None, 'dx': dx, 'z': z}}
 
+def gen_reuse(rng):
+    """a plane object used, then given new amplitude / OPD through the setters (the mask and with it `_slice` stay), used again and
+    copied: it must act exactly like a freshly constructed plane with the new attributes, segmented or monolithic (oracle-only)"""
+    for _ in range(100):
+        shape = (int(rng.integers(3, 8)), int(rng.integers(3, 8)))
+        a, b = _split_plane(rng, 'gi', shape)
+        if len(a['mask']['layers']) < 2 or H7.has_one_element_field([a]) or H7.has_one_element_field([b]): continue
+        new_amp = H7._attr(rng, 'gi', 'amp', shape, False); new_opd = H7._attr(rng, 'gi', 'opd', shape, bool(rng.integers(0, 3) == 0))
+        if not H7._ok_layer(np.array(new_amp['v']).reshape(shape) != 0): continue
+        for p in (a, b): p['px'] = [1.0, 1.0]; p['fl'] = 3.0
+        return {'kind': 'reuse', 'mode': 'gi', 'wavelength': H7.WL_GI, 'seg': a, 'mono': b, 'new_amp': new_amp, 'new_opd': new_opd}
+    raise RuntimeError('generator could not build a reuse case')
+
 def gen_mixed(rng):
     """chains mixing Tilt planes / Wavefront(tilt=...) with segmented Pupil planes (no fitted tilt): tilt elements before AND
     after the segmented plane(s) in most cases; both descriptions (segmented / monolithic) of every Pupil"""
@@ -267,6 +283,8 @@ def generate(rng, tier):
             out.append(gen_big(rng) if k % 10 == 0 else gen_phys(rng, prop=bool(k % 4))); continue
         if tier != 'search' and k % 20 == 19:
             out.append(gen_big(rng) if k % 100 == 19 else gen_phys(rng, prop=bool(k % 40 == 19))); continue
+        if k % 50 == 11:
+            out.append(gen_reuse(rng)); continue
         if k % 7 == 6:
             out.append(gen_tilt(rng)); continue
         if k % 7 == 5:
@@ -278,6 +296,7 @@ def generate(rng, tier):
     return out
 
 def signature(c):
+    if c['kind'] == 'reuse': return 'reuse ' + vlib.jhash({k: c[k] for k in ('seg', 'new_amp', 'new_opd')})
     if c['kind'] == 'mixed':
         o = ''.join('T' if isinstance(x, dict) else f"P{len(c['seg'][x]['mask']['layers'])}" for x in c['order'])
         return f"mixed {'W' if c['wtilt'] else ''}{o} {c['seg'][0]['mask']['shape']} {vlib.jhash(c['seg'])[:6]} prop={c['prop']}"
@@ -288,10 +307,11 @@ def signature(c):
     return f"{c['mode']} {s} prop={c.get('prop')}"
 
 def nontrivial(c):
-    if c['kind'] in ('tilt', 'mixed'): return True
+    if c['kind'] in ('tilt', 'mixed', 'reuse'): return True
     return any(len(p['mask']['layers']) > 1 for p in c['seg'])
 
 def tags(c):
+    if c['kind'] == 'reuse': return ['plane-reused-after-setters-and-copy']
     if c['kind'] == 'mixed':
         idx = [i for i, x in enumerate(c['order']) if not isinstance(x, dict)]
         before = bool(c['wtilt']) or any(isinstance(x, dict) for x in c['order'][:idx[0]])
@@ -300,7 +320,8 @@ def tags(c):
                 'mixed:Wavefront(tilt)' if c['wtilt'] else 'mixed:no-wavefront-tilt']
     if c['kind'] == 'tilt':
         return ['tilted-segments', f"tilt:K={len(c['layers'])}", 'tilt:chain-spacing' if c['chain'] else 'tilt:random-spacing']
-    t = [f"mode:{c['mode']}", f"planes:{len(c['seg'])}", 'propagated' if 'prop' in c else 'not-propagated']
+    t = [f"mode:{c['mode']}", f"planes:{len(c['seg'])}", 'propagated' if 'prop' in c else 'not-propagated', 'class:' + c['seg'][0]['kind']]
+    if any(len(p['mask']['layers']) > 5 for p in c['seg']): t.append('segments:>5')
     if c.get('extreme'): t.append('extreme:' + c['extreme'])
     for p in c['seg']:
         t.append(f"segments:{len(p['mask']['layers'])}")
@@ -374,7 +395,27 @@ def _run_mixed(c, planes):
     o['field'] = H7.arr_out(w2.field, 'cf'); o['intensity'] = H7.arr_out(w2.intensity, 'cf'); o['nout'] = len(w2.data)
     return o
 
+def _run_reuse(c):
+    lentil = vlib.import_lentil()
+    wl = c['wavelength']; out = {}
+    na = H7._np_attr(c['new_amp'], 'gi', wl); no = H7._np_attr(c['new_opd'], 'gi', wl) * (wl / 4)
+    for name in ('seg', 'mono'):
+        P = H7.build_plane(c[name], 'gi', wl)
+        first = (lentil.Wavefront(wl) * P).field          # first use
+        P.amplitude = na; P.opd = no                       # setters; mask / _slice untouched
+        again = lentil.Wavefront(wl) * P
+        cp = lentil.Wavefront(wl) * P.copy()
+        fresh = lentil.Wavefront(wl) * H7.build_plane(dict(c[name], amp=c['new_amp'], opd=c['new_opd']), 'gi', wl)
+        out[name] = {'again': H7.arr_out(again.field, 'gi'), 'copy': H7.arr_out(cp.field, 'gi'), 'fresh': H7.arr_out(fresh.field, 'gi'),
+                     'again_I': H7.arr_out(again.intensity, 'gi'), 'fresh_I': H7.arr_out(fresh.intensity, 'gi'), 'first_shape': list(first.shape)}
+    return out
+
 def impl(c):
+    if c['kind'] == 'reuse':
+        try:
+            return _run_reuse(c)
+        except (ValueError, IndexError, TypeError, AttributeError) as e:
+            return {'exc': type(e).__name__, 'msg': str(e)[:200]}
     if c['kind'] == 'mixed':
         try:
             return {'seg': _run_mixed(c, c['seg']), 'mono': _run_mixed(c, c['mono'])}
@@ -418,6 +459,7 @@ def _mixed_req(c, planes):
             'elements': els, 'prop': _prop_req(c['prop'])}
 
 def requests(c, io):
+    if c['kind'] == 'reuse': return []          # oracle-only
     if c.get('extreme') == 'big': return []          # oracle-only (size)
     if c['kind'] == 'mixed': return [_mixed_req(c, c['seg']), _mixed_req(c, c['mono'])]
     if c['kind'] == 'tilt':
@@ -470,6 +512,7 @@ def _cmp_chain(real_fields, real_field, real_int, m, bound):
     return None
 
 def compare(c, io, mo):
+    if c['kind'] == 'reuse': return None
     if c.get('extreme') == 'big': return None
     if c['kind'] == 'mixed':
         if 'exc' in io: return f"implementation raised {io['exc']}: {io.get('msg')}"
@@ -537,6 +580,14 @@ def _oracle_tilt(c, io):
 def oracle(c, io):
     if 'exc' in io: return f"raised {io['exc']}: {io.get('msg')}"
     if c['kind'] == 'tilt': return _oracle_tilt(c, io)
+    if c['kind'] == 'reuse':
+        for name in ('seg', 'mono'):
+            r = io[name]
+            if r['again'] != r['fresh']: return f'{name}: a plane given new amplitude/OPD through the setters does not act like a freshly constructed one'
+            if r['copy'] != r['fresh']: return f'{name}: the copy of a re-assigned plane does not act like a freshly constructed one'
+            if r['again_I'] != r['fresh_I']: return f'{name}: intensity after re-assignment differs from the fresh plane'
+        if io['seg']['fresh'] != io['mono']['fresh']: return 'segmented and monolithic field differ (re-assigned attributes)'
+        return None
     if c['kind'] == 'mixed':
         want = ([] if c['wtilt'] is None else [list(c['wtilt'])]) + [[x['x'], x['y']] for x in c['order'] if isinstance(x, dict)]
         for name in ('seg', 'mono'):
@@ -581,7 +632,7 @@ def oracle(c, io):
     return None
 
 def shrink(c):
-    if c['kind'] in ('tilt', 'mixed'): return
+    if c['kind'] in ('tilt', 'mixed', 'reuse'): return
     if len(c['seg']) > 1:
         for i in range(len(c['seg'])):
             d = dict(c); d['seg'] = c['seg'][:i] + c['seg'][i + 1:]; d['mono'] = c['mono'][:i] + c['mono'][i + 1:]
